@@ -203,7 +203,85 @@ func init() {
 		bitmap.IndexRank64(decoy, true)
 		return L(I32s(s), I32s(r))
 	}
+	// very large bitmaps, run-length encoded [[count, word], ...]; a long index is rendered as run-length
+	// encoded first differences [[count, delta], ...] (the same encoding is computed on the Coq side)
+	Exec["bitmap.Select32/rle"] = func(a []V) string {
+		ws := c02Unrle(a[0])
+		x, y := bitmap.Select32(ws, bitmap.IndexSelect32(ws), a[1].I32())
+		return L(I32(x), I32(y))
+	}
+	Exec["bitmap.Select32R64/rle"] = func(a []V) string {
+		ws := c02Unrle(a[0])
+		sidx, ridx := bitmap.IndexSelect32R64(ws)
+		x, y := bitmap.Select32R64(ws, sidx, ridx, a[1].I32())
+		return L(I32(x), I32(y))
+	}
+	Exec["bitmap.IndexSelect32/rle"] = func(a []V) string {
+		return c02IndexRle(bitmap.IndexSelect32(c02Unrle(a[0])))
+	}
+	Exec["bitmap.IndexSelect32R64/rle"] = func(a []V) string {
+		s, _ := bitmap.IndexSelect32R64(c02Unrle(a[0]))
+		return c02IndexRle(s)
+	}
 	Register("C02", genC02)
+}
+
+type c02Run struct {
+	n int
+	w uint64
+}
+
+// c02Unrle expands [[count, word], ...]
+func c02Unrle(v V) []uint64 {
+	var ws []uint64
+	for _, r := range v.L {
+		n, w := r.L[0].Int(), r.L[1].U64()
+		for k := 0; k < n; k++ {
+			ws = append(ws, w)
+		}
+	}
+	return ws
+}
+
+func c02RunsText(runs []c02Run) string {
+	parts := make([]string, 0, len(runs))
+	for _, r := range runs {
+		parts = append(parts, L(Int(r.n), U(r.w)))
+	}
+	return L(parts...)
+}
+
+// c02RunOnes: positions of the 1-bits of a run-length encoded bitmap are not materialised; this returns the
+// number of words, the number of 1-bits and a function giving the word that holds the i-th 1-bit
+func c02RunStats(runs []c02Run) (nw int, ones int) {
+	for _, r := range runs {
+		nw += r.n
+		ones += r.n * bits.OnesCount64(r.w)
+	}
+	return
+}
+
+// c02IndexRle renders an index as run-length encoded first differences (from 0): [[count, delta], ...]
+func c02IndexRle(idx []int32) string {
+	var parts []string
+	prev := int64(0)
+	cnt, cur := 0, int64(0)
+	for _, x := range idx {
+		d := int64(x) - prev
+		prev = int64(x)
+		if cnt > 0 && d == cur {
+			cnt++
+			continue
+		}
+		if cnt > 0 {
+			parts = append(parts, L(Int(cnt), fmt.Sprint(cur)))
+		}
+		cnt, cur = 1, d
+	}
+	if cnt > 0 {
+		parts = append(parts, L(Int(cnt), fmt.Sprint(cur)))
+	}
+	return L(parts...)
 }
 
 // c02Strided: a bitmap with exactly n 1-bits at positions start, start+stride, ...
@@ -498,6 +576,82 @@ func genC02(g *Gen) {
 					g.Do("bitmap.Select32/held", L(w, Int(i), d), k)
 					g.Do("bitmap.Select32R64/held", L(w, Int(i), d), k)
 				}
+			}
+		}
+	}
+
+	// (R) very large bitmaps (run-length encoded): 2^15 and 2^16 words and one either side, 40000, and 140000 in the
+	// thorough tier; dense, one bit per word, 1-bits only behind a long run of empty words, islands between long
+	// empty runs.  Word indexes >= 2^15, bit positions >= 2^21, checkpoint counts >= 2^16, 1-bit counts crossing
+	// 2^15, 2^16, 2^20.  Judged by the linear-time evaluator proved equal to the model (C02_rle_run_is_model_*).
+	{
+		sizes := []int{32767, 32768, 32769, 40000, 65535, 65536, 65537}
+		if g.Thorough {
+			sizes = append(sizes, 140000)
+		}
+		const full = ^uint64(0)
+		for _, n := range sizes {
+			fams := []struct {
+				name string
+				runs []c02Run
+			}{
+				{"dense", []c02Run{{n, full}}},
+				{"bitperword", []c02Run{{n, 1 << 63}}},
+				{"behindzeros", []c02Run{{n - 40, 0}, {37, 0x8001000000010001}, {2, 0}, {1, 1 << 62}}},
+				{"islands", []c02Run{{3, 0xffff0000ffff0000}, {n/2 - 10, 0}, {9, full}, {n/2 - 300, 0}, {290, 0x0101010101010101}, {n - 3 - (n/2 - 10) - 9 - (n/2 - 300) - 290, 0x8000000000000001}}},
+			}
+			for _, f := range fams {
+				nw, cnt := c02RunStats(f.runs)
+				if nw != n || cnt == 0 {
+					panic("c02: bad rle family")
+				}
+				txt := c02RunsText(f.runs)
+				key := fmt.Sprintf("rle/%s/nw%d", f.name, n)
+				g.Stat("rle-" + f.name)
+				g.Do("bitmap.IndexSelect32/rle", L(txt), key)
+				g.Do("bitmap.IndexSelect32R64/rle", L(txt), key)
+				seen := map[int]bool{}
+				try := func(i int) {
+					if i >= 0 && i < cnt && !seen[i] {
+						seen[i] = true
+						g.Do("bitmap.Select32/rle", L(txt, Int(i)), key)
+						g.Do("bitmap.Select32R64/rle", L(txt, Int(i)), key)
+					}
+				}
+				try(0)
+				try(cnt - 1)
+				try(cnt - 2)
+				try((cnt - 1) &^ 31)
+				// 1-bit counts crossing 2^15, 2^16, 2^20
+				for _, c := range []int{1 << 15, 1 << 16, 1 << 20} {
+					try(c - 1)
+					try(c)
+				}
+				// the 1-bits whose word index is next to 2^15 and 2^16: i = (1-bits per word) * word index
+				per := cnt / n
+				if per > 0 && f.name != "islands" && f.name != "behindzeros" {
+					for _, wi := range []int{1 << 15, 1 << 16} {
+						for _, dw := range []int{-1, 0, 1} {
+							try(per*(wi+dw) - 1)
+							try(per * (wi + dw))
+							if dw == 0 {
+								try(per*wi + 33)
+							}
+						}
+					}
+				}
+				if f.name == "behindzeros" {
+					for i := 0; i < cnt; i += 17 {
+						try(i)
+					}
+				}
+				if f.name == "islands" {
+					for _, i := range []int{95, 96, 97, 96 + 575, 96 + 576, 96 + 576 + 31, 96 + 576 + 2319, 96 + 576 + 2320, 96 + 576 + 2321} {
+						try(i)
+					}
+				}
+				try(g.R.Intn(cnt))
+				try(g.R.Intn(cnt))
 			}
 		}
 	}
